@@ -29,13 +29,43 @@ const char *kModeName[] = {"-", "S", "SIX", "X"};
 struct Req {
   int thread;
   int mode;
-  uint64_t arrival = 0;
+  uint64_t begin = 0;    // stamp when the call was entered
+  uint64_t arrival = 0;  // stamp of the first value-changing write to the lock object (0 = none yet)
   bool granted = false;
 };
 
 struct Ghost {
-  int8_t mode[kMaxT] = {};       // grant registry (<= 1 grant per thread per lock)
-  bool converted[kMaxT] = {};    // the registered grant was obtained through UPG/DWN
+  // grant registry: per thread the multiset of grants it holds on this lock (nested compatible
+  // grants S+S / S+SIX by one thread are possible on Pessimistic/OptimisticLock)
+  int16_t ns[kMaxT] = {};        // shared grants (incl. PrepareRead fallback)
+  bool six[kMaxT] = {};
+  bool xx[kMaxT] = {};
+  bool converted[kMaxT] = {};    // the registered SIX/X grant was obtained through UPG/DWN
+  int
+  mode(int t) const
+  {
+    return xx[t] ? 3 : six[t] ? 2 : ns[t] > 0 ? 1 : 0;
+  }
+  void
+  add(int t, int m)
+  {
+    if (m == 1) ns[t]++;
+    if (m == 2) six[t] = true;
+    if (m == 3) xx[t] = true;
+  }
+  void
+  del(int t, int m)
+  {
+    if (m == 1 && ns[t] > 0) ns[t]--;
+    if (m == 2) six[t] = false;
+    if (m == 3) xx[t] = false;
+    if (!six[t] && !xx[t]) converted[t] = false;
+  }
+  int
+  count(int t) const
+  {
+    return ns[t] + (six[t] ? 1 : 0) + (xx[t] ? 1 : 0);
+  }
   int8_t inreq[kMaxT] = {};      // mode of the request call the thread is inside
   bool inconv[kMaxT] = {};       // thread is inside UpgradeToX/DowngradeToSIX
   bool inrel[kMaxT] = {};        // thread is inside a releasing call (the grant is still outstanding for node accounting)
@@ -53,6 +83,7 @@ struct Ghost {
   const void *lo = nullptr;
   const void *hi = nullptr;
   bool prep_conflict[kMaxT] = {};
+  bool prep_wrote[kMaxT] = {};
 };
 
 struct SlotModel {
@@ -102,7 +133,7 @@ arrival_cb(int tag)
     if (g.reqs[r].mode >= 2) {
       int members = 0;
       for (int t = 0; t < kMaxT; t++) {
-        if (t != me && (g.mode[t] == 1 || g.inreq[t] == 1)) members++;
+        if (t != me && (g.mode(t) == 1 || g.inreq[t] == 1)) members++;
       }
       if (members >= 2) X->out.group_successor = true;
     }
@@ -115,8 +146,9 @@ prep_cb(int tag)
   auto &g = X->g[tag];
   const int me = vsched::self();
   for (int t = 0; t < kMaxT; t++) {
-    if (g.mode[t] != 0) g.prep_conflict[me] = true;
+    if (g.mode(t) != 0) g.prep_conflict[me] = true;
   }
+  g.prep_wrote[me] = true;
 }
 
 template <class L>
@@ -155,13 +187,38 @@ struct Interp {
   int
   held_mode(int l) const
   {
+    int best = 0;
     for (int k : {kS, kI, kX, kC}) {
       for (int j = 0; j < 2; j++) {
         const auto &m = ts->m[k][j];
-        if (m.owns && m.lock == l) return k == kS ? 1 : k == kI ? 2 : k == kX ? 3 : 1;
+        if (m.owns && m.lock == l) best = std::max(best, k == kI ? 2 : k == kX ? 3 : 1);
       }
     }
-    return 0;
+    return best;
+  }
+  int
+  own_shared(int l) const
+  {
+    int n = 0;
+    for (int k : {kS, kC}) {
+      for (int j = 0; j < 2; j++) {
+        if (ts->m[k][j].owns && ts->m[k][j].lock == l) n++;
+      }
+    }
+    return n;
+  }
+  // nested requests of one thread on one lock are outside C02's quantifier and can self-deadlock on
+  // MCSLock (queue order); on Pessimistic/OptimisticLock compatible nesting (S+S, S+SIX) is legal
+  // client behaviour that C07 quantifies over. Only generated when the case asks for it.
+  bool
+  nest_ok(int l, int mode) const
+  {
+    if (!X->c->allow_nesting || X->is_mcs) return false;
+    const int own = held_mode(l);
+    if (mode == 1) return own == 1 || own == 2;  // S under own S or SIX is granted without waiting for anybody
+    // SIX while holding S can wait for a foreign SIX holder whose upgrade waits for our S: client-made deadlock
+    if (mode == 2) return own == 1 && X->c->threads.size() == 1;
+    return false;
   }
   bool
   holds_above(int l) const
@@ -188,7 +245,7 @@ struct Interp {
     }
     return true;
   }
-  bool can_request(int l) const { return l < X->c->nlocks && held_mode(l) == 0 && !holds_above(l); }
+  bool can_request(int l, int mode) const { return l < X->c->nlocks && !holds_above(l) && (held_mode(l) == 0 || nest_ok(l, mode)); }
   bool can_wait_version(int l) const { return l < X->c->nlocks && held_mode(l) != 3 && !holds_above(l); }
 
   /*--------------------------------------------------------------------------
@@ -202,13 +259,13 @@ struct Interp {
     bool cont = false;
     for (int t = 0; t < kMaxT; t++) {
       if (t == me) continue;
-      if (conflicts(mode, g.mode[t]) || conflicts(mode, g.inreq[t])) cont = true;
+      if (conflicts(mode, g.mode(t)) || conflicts(mode, g.inreq[t])) cont = true;
       if (g.inconv[t]) X->out.conv_raced = true;
     }
     if (cont) X->out.contended = true;
     pending_cont = cont;
     if (X->out.owning_move_lock[l] && mode >= 1) X->out.later_conflict = true;
-    g.reqs.push_back(Req{me, mode});
+    g.reqs.push_back(Req{me, mode, ++g.arrseq});
     g.cur_req[me] = static_cast<int>(g.reqs.size()) - 1;
     vsched::watch_set(0, g.lo, g.hi, l, arrival_cb);
     vsched::heap_lib_scope(true);
@@ -237,15 +294,15 @@ struct Interp {
     g.inreq[me] = 0;
     for (int t = 0; t < kMaxT; t++) {
       if (t == me) continue;
-      if (conflicts(mode, g.mode[t])) {
+      if (conflicts(mode, g.mode(t))) {
         const bool c10 = conv || g.converted[t];
         report(c10 ? "EXCLUSION-CONV" : "EXCLUSION", std::string("lock ") + std::to_string(l) + ": " + kModeName[mode] + " granted via " + via
                                                          + " to T" + std::to_string(me) + " while T" + std::to_string(t) + " holds "
-                                                         + kModeName[g.mode[t]]);
+                                                         + kModeName[g.mode(t)]);
       }
     }
-    g.mode[me] = static_cast<int8_t>(mode);
-    g.converted[me] = conv;
+    g.add(me, mode);
+    if (mode >= 2) g.converted[me] = conv;
     X->out.grants++;
     if (!conv) {
       const int r = g.cur_req[me];
@@ -253,12 +310,16 @@ struct Interp {
         auto &mine = g.reqs[r];
         mine.granted = true;
         if (pending_cont) X->out.waited_granted = true;
-        if (X->is_mcs && mine.arrival != 0) {
+        if (X->is_mcs) {
+          // A request that never wrote the lock object cannot have announced itself before its
+          // call began: its arrival is bounded below by the stamp taken at call entry.
+          const uint64_t my_arrival = mine.arrival != 0 ? mine.arrival : mine.begin;
           for (auto &q : g.reqs) {
-            if (!q.granted && q.arrival != 0 && q.arrival < mine.arrival && conflicts(q.mode, mine.mode)) {
+            if (!q.granted && q.arrival != 0 && q.arrival < my_arrival && conflicts(q.mode, mine.mode)) {
               report("ORDER", std::string("lock ") + std::to_string(l) + ": T" + std::to_string(me) + " " + kModeName[mode]
-                                  + " (arrival #" + std::to_string(mine.arrival) + ") granted before conflicting T"
-                                  + std::to_string(q.thread) + " " + kModeName[q.mode] + " (arrival #" + std::to_string(q.arrival) + ")");
+                                  + (mine.arrival != 0 ? " (arrival #" + std::to_string(mine.arrival) + ")" : " (never announced itself on the lock object; call entered at #" + std::to_string(mine.begin) + ")")
+                                  + " granted before conflicting T" + std::to_string(q.thread) + " " + kModeName[q.mode] + " (arrival #"
+                                  + std::to_string(q.arrival) + ")");
             }
           }
         }
@@ -269,11 +330,9 @@ struct Interp {
   }
 
   void
-  unregister(int l)
+  unregister(int l, int kind)
   {
-    auto &g = X->g[l];
-    g.mode[me] = 0;
-    g.converted[me] = false;
+    X->g[l].del(me, kind == kI ? 2 : kind == kX ? 3 : 1);
   }
 
   void
@@ -284,7 +343,7 @@ struct Interp {
     long outstanding = 0;
     for (int l = 0; l < X->c->nlocks; l++) {
       for (int t = 0; t < kMaxT; t++) {
-        if (X->g[l].mode[t] != 0 || X->g[l].inreq[t] != 0 || X->g[l].inrel[t]) outstanding++;
+        outstanding += X->g[l].count(t) + (X->g[l].inreq[t] != 0 ? 1 : 0) + (X->g[l].inrel[t] ? 1 : 0);
       }
     }
     const long bound = (X->started - X->exited) + outstanding;
@@ -349,7 +408,7 @@ struct Interp {
       if (kind == kX) {
         vsched::harness_point();
         vsched::nopreempt_enter();
-        unregister(l);
+        unregister(l, kind);
         action();
         const uint32_t nv = m.has_set ? m.set_ver : m.base_ver + 1U;
         if (!m.has_set && m.base_ver == 0xFFFFFFFFU) X->out.wrapped = true;
@@ -367,7 +426,7 @@ struct Interp {
         return;
       }
     }
-    unregister(l);
+    unregister(l, kind);
     g.inrel[me] = true;
     vsched::heap_lib_scope(true);
     action();
@@ -446,7 +505,7 @@ struct Interp {
   {
     const auto &g = X->g[l];
     for (int t = 0; t < kMaxT; t++) {
-      if (t != me && g.mode[t] == 3) return true;
+      if (t != me && g.xx[t]) return true;
     }
     return false;
   }
@@ -500,7 +559,7 @@ struct Interp {
   void
   acquire(int l, int mode, int kind, int j, const char *via, F &&call)
   {
-    if (!can_request(l) || !release_ok(ts->m[kind][j], kind, l)) {
+    if (!can_request(l, mode) || !release_ok(ts->m[kind][j], kind, l)) {
       X->out.skipped++;
       return;
     }
@@ -630,7 +689,7 @@ struct Interp {
           break;
         }
         const int l = mi.lock;
-        if (holds_above(l) || (mx.owns && mx.lock == l)) {
+        if (holds_above(l) || (mx.owns && mx.lock == l) || own_shared(l) > 0) {
           X->out.skipped++;
           break;
         }
@@ -639,14 +698,14 @@ struct Interp {
         const auto v0 = read_payload(l, "SIX (before upgrade)");
         g.inconv[me] = true;
         for (int t = 0; t < kMaxT; t++) {
-          if (t != me && (g.mode[t] != 0 || g.inreq[t] != 0)) X->out.conv_raced = true;
+          if (t != me && (g.mode(t) != 0 || g.inreq[t] != 0)) X->out.conv_raced = true;
         }
         vsched::heap_lib_scope(true);
         auto gd = ts->i[ji].UpgradeToX();
         vsched::heap_lib_scope(false);
         g.inconv[me] = false;
         // registry: SIX -> X without a gap; every S holder must be gone
-        g.mode[me] = 0;
+        g.del(me, 2);
         grant(l, 3, "UpgradeToX", true);
         if (!gd) report("BOOL", "UpgradeToX on an owning guard returned a guard that converts to false");
         mi = SlotModel{};
@@ -680,7 +739,7 @@ struct Interp {
         write_payload(l);
         const auto v0 = g.a.v;
         for (int t = 0; t < kMaxT; t++) {
-          if (t != me && (g.mode[t] != 0 || g.inreq[t] != 0)) X->out.conv_raced = true;
+          if (t != me && (g.mode(t) != 0 || g.inreq[t] != 0)) X->out.conv_raced = true;
         }
         typename L::SIXGuard gd{};
         if constexpr (IsOpt<L>::value) {
@@ -695,7 +754,8 @@ struct Interp {
           g.published.push_back(nv);
           g.gver = nv;
           g.commits++;
-          g.mode[me] = 2;
+          g.del(me, 3);
+          g.add(me, 2);
           g.converted[me] = true;
           if (!vsched::nopreempt_leave()) g.exact = false;
           X->out.x_end_dwn = true;
@@ -704,7 +764,8 @@ struct Interp {
           // registry: X -> SIX *before* the call. The registry must stay a subset of what is
           // actually held; X implies everything SIX excludes, and shared requests may be
           // granted as soon as the downgrade's write is visible, i.e. before the call returns.
-          g.mode[me] = 2;
+          g.del(me, 3);
+          g.add(me, 2);
           g.converted[me] = true;
           g.inconv[me] = true;
           vsched::heap_lib_scope(true);
@@ -811,7 +872,7 @@ struct Interp {
         case TRY_X: {
           const int jo = op.a & 1, j = op.b & 1;
           auto &m = ts->m[kO][jo];
-          if (!m.bound || !can_request(m.lock) || (op.code == TRY_SIX && !release_ok(ts->m[kI][j], kI, m.lock))) {
+          if (!m.bound || !can_request(m.lock, op.code == TRY_S ? 1 : op.code == TRY_SIX ? 2 : 3) || (op.code == TRY_SIX && !release_ok(ts->m[kI][j], kI, m.lock))) {
             X->out.skipped++;
             break;
           }
@@ -865,12 +926,14 @@ struct Interp {
           auto &g = X->g[l];
           if (x_active_elsewhere(l)) X->out.prep_seen_x = true;
           g.prep_conflict[me] = false;
+          g.prep_wrote[me] = false;
           vsched::watch_set(1, g.lo, g.hi, l, prep_cb);
           auto gd = lk[l].PrepareRead();
           vsched::watch_clear(1);
           auto &m = ts->m[kC][j];
           if (gd) {
             X->out.prep_fallback = true;
+            if (!g.prep_wrote[me]) report("PREP-PHANTOM", std::string("PrepareRead on lock ") + std::to_string(l) + " returned an owning guard without ever modifying the lock object: no shared grant backs it");
             if (g.prep_conflict[me] || held_mode(l) != 0) report("PREP-STACK", std::string("PrepareRead on lock ") + std::to_string(l) + " took a shared lock although the lock was not free");
             const bool contprev = pending_cont;
             pending_cont = false;
